@@ -130,6 +130,19 @@ PROPS["C06"] = {
     "level_note": "Trusted: harness/ref. ON/WHERE never touch NULL-padded columns (SQL three-valued logic is outside the property). Result order is not compared.",
 }
 
+PROPS["C07"] = {
+    "kind": "harness", "test": "TestC07", "level": "exploration",
+    "tiers": tiers(300, 4, 3000, 16),
+    "rule": "rapid-generated cases: table t0(g1 INT, g2 VARCHAR, n INT nullable, v INT, w BIGINT) with 0-60 rows whose grouping values collide when printed and concatenated (ints {1,2,3,12,23,123}, strings {'1','12','2','','<nil>','true',...}), "
+            "NULLs in n, AVG columns small or up to +-2^31 / +-2^40, optionally t1 for a join; 1-8 aggregate queries as SQL text: COUNT(*), COUNT(col), AVG(col) in any select-list position, 0-3 grouping columns referenced in GROUP BY (comma separated) by name, qualified name or alias, "
+            "optional WHERE and JOIN. Oracle: reference grouping by value tuples, exact rational mean (either neighbour accepted at an exact half), compared as a multiset; metamorphic second run on a shadow database holding the same rows in a generated permutation. "
+            "An AVG cell that deviates from the true rounded mean but equals the running mean re-rounded after every row in scan order is classified as the listed finding C07-avg-running-mean (counted, not raised). "
+            "Non-trivial: >=2 grouping columns with two groups whose concatenated printed keys coincide, or an AVG group whose running-rounded mean differs from the true rounded mean, or a grouping column that is not first in the select list; distinct by (tables, query) JSON.",
+    "technique": "property-based differential testing (rapid) against a reference aggregator + metamorphic row-order permutation",
+    "level_text": "Random search over tables built to provoke key collisions and rounding differences, compared with exact arithmetic. Search, not proof.",
+    "level_note": "Trusted: harness/ref. AVG only over NULL-free integer columns, grouping columns always in the select list (the property's domain). The listed AVG finding is recognised by its exact mechanism (value equals the legacy running mean), any other deviation is a violation.",
+}
+
 HOOK_COMMITS = ["7ca683e"]
 
 NOT_APPLICABLE = {}
